@@ -34,6 +34,7 @@ Proof.
   destruct (resolve s doc from) as [rf|] eqn:Ef; [|discriminate]. cbn [bind] in H.
   destruct (resolve s doc to) as [rt|] eqn:Et; [|discriminate]. cbn [bind] in H.
   unfold replace_rp in H. destruct (rp_depth rf <? sl_open_start sl); [discriminate|]. destruct (negb _); [discriminate|].
+  destruct (rp_pos rt <? rp_pos rf); [discriminate|]. destruct (_ && _); [discriminate|].
   destruct (replace_outer_copy s _ _ _ _ _ _ H) as (n & X & En & ->).
   destruct (resolve_spec s _ _ _ Ef) as (_ & _ & _ & (i & o & rest & Hh) & _).
   unfold rp_node, path_at in En. rewrite Hh in En. cbn in En. inversion En; subst n.
